@@ -317,7 +317,7 @@ def recorded_test_solves(tier):
         out = os.path.join(tmp, 'solves.jsonl')
         env = dict(os.environ, PYTHONPATH=f'{REPO_SRC}{os.pathsep}{VERIF}', VERIF_TRACE_OUT=out, HYPOTHESIS_STORAGE_DIRECTORY=os.path.join(tmp, 'hyp'), MPLBACKEND='Agg')
         targets = ['tests/test_integration.py', 'tests/Circuit/solution'] if tier == 'quick' else ['tests']
-        p = subprocess.run([sys.executable, '-m', 'pytest', '-q', '-x', '-p', 'no:cacheprovider', '-p', 'harness.pytest_tracer'] + targets, cwd=REPO, env=env,
+        p = subprocess.run([sys.executable, '-m', 'pytest', '-q', '-p', 'no:cacheprovider', '-p', 'harness.pytest_tracer'] + targets, cwd=REPO, env=env,
                            capture_output=True, text=True, timeout=1200)
         if not os.path.exists(out):
             raise MachineryError('the repository tests were run under the tracer but no solve was recorded:\n' + (p.stdout + p.stderr)[-1500:])
